@@ -160,7 +160,10 @@ static std::string op_step(const std::vector<std::string>& w) {
   }
   if (op == "copy") {
     const bloom_filter& f = V(w[1]);
-    put_view(atoi(w[2].c_str()), new bloom_filter(f));
+    const int d = atoi(w[2].c_str());
+    auto it = views.find(d);
+    if (it != views.end() && it->second) *it->second = f;      // the target exists: COPY ASSIGNMENT into a live filter
+    else put_view(d, new bloom_filter(f));                      // copy construction
     return "ok";
   }
   if (op == "ser") {
